@@ -631,6 +631,11 @@ class PyExec:
             # it are recorded, which is what the ownership obligations need (values are abstracted anyway)
             self.abstracted.append("%s line %s: loop over abstracted sequence executed as one generic iteration" % (self.mod.relpath, n.lineno))
             self.assign(st, n.target, Opaque("loop item", buf=it.buf), env)
+            # names assigned in the body are loop-carried: in the generic iteration they may hold the value of an
+            # earlier iteration (definite assignment is therefore not checked for them inside such loops)
+            for sub in ast.walk(n):
+                if isinstance(sub, ast.Name) and isinstance(sub.ctx, ast.Store) and sub.id not in env:
+                    env[sub.id] = Opaque("value of '%s' from an earlier iteration" % sub.id)
             outs = []
             for (x, fl, v, e2) in self.exec_block(st, n.body, env):
                 if fl in ("normal", "continue", "break"):
@@ -1319,7 +1324,7 @@ class PyExec:
                 return tuple(o.shape)
         if isinstance(o, Opaque):
             if a in ("T", "real", "imag", "flat"):
-                return Opaque(a + " view of " + o.why, buf=o.buf)
+                return Opaque(a + " view of " + o.why, buf=o.buf, idx=(("T", o.idx) if a == "T" else o.idx))
             return Opaque("attribute of an abstracted value")
         if isinstance(o, SuperRef):
             cls = o.cls
@@ -1528,6 +1533,13 @@ class PyExec:
                 return v.sort() == z3.RealSort()
             if tn == "int" and is_sym(v):
                 return v.sort() == z3.IntSort()
+            if isinstance(v, Opaque):
+                # unknown dynamic type of an abstracted object: one symbolic answer per (object, type), used consistently
+                cache = self.__dict__.setdefault("_isinstance_cache", {})
+                key = (v.id, tn)
+                if key not in cache:
+                    cache[key] = z3.Bool("isinstance!%d!%s" % (v.id, tn))
+                return cache[key]
             raise CheckerError("isinstance(%r, %r) not modelled" % (v, tn))
         if name == "print":
             return None
